@@ -90,6 +90,13 @@ def run(tier):
         traces += t2
         drift += d2
         hists = hists + two_path
+        # the real file layer: how the file is named (links, relative path) x memory / fresh process / diff_cache
+        import os
+        from harness import cachefaults
+        from harness.common import BUILD
+        rt = cachefaults.realfs_scenarios(os.path.join(BUILD, 'realfs-%d' % os.getpid()))
+        traces += rt
+        out.cov(real_file_layer_scenarios=len(rt))
         out.drift += drift[:5]
         acc, rej, res = _cache.validate(scratch.sub('val'), traces)
         out.add('states', res.distinct)
